@@ -413,8 +413,13 @@ def afm_emit(shape, cards, names, opts, trees):
         if rbp[i]:
             lines.append(names[i] + sp + ':' + sp + sp.join(spec(ri) for ri in rbp[i]) + ';')
     lines += ['', '%Attributes', '', '%Constraints']
-    for t in trees:
+    blk = opts.get('block')          # (position, feature name, tree): a feature-scoped block  Name {expr;}  among the plain constraints
+    for k, t in enumerate(trees):
+        if blk and blk[0] == k:
+            lines.append(blk[1] + ' {' + _afm_expr(blk[2], opts) + ';}')
         lines.append(_afm_expr(t, opts) + ';')
+    if blk and blk[0] >= len(trees):
+        lines.append(blk[1] + ' {' + _afm_expr(blk[2], opts) + ';}')
     return '\n'.join(lines) + '\n'
 
 
@@ -438,7 +443,14 @@ def afm_file(shape, cards, opts, ctc_code) -> list:
     n = R.n_features(shape)
     names = ['A', 'B', 'C', 'D', 'E', 'F', 'G'][:n]
     trees = AFM_CTCS[ctc_code] if n >= 3 else []
-    want = R.build(shape, cards, names=names, ctcs=[R.ctc('c%d' % i, t) for i, t in enumerate(trees)])
+    wtrees = list(trees)
+    if opts.get('block') and n >= 3:
+        # names inside a block are qualified with the block's feature; the plain constraints around it are not
+        opts = dict(opts, block=(opts['block'] % (len(trees) + 1), names[1], ('IMPLIES', 'B', 'C')))
+        wtrees.insert(opts['block'][0], ('IMPLIES', names[1] + '.B', names[1] + '.C'))
+    elif opts.get('block'):
+        opts = dict(opts, block=None)
+    want = R.build(shape, cards, names=names, ctcs=[R.ctc('c%d' % i, t) for i, t in enumerate(wtrees)])
     text = afm_emit(shape, cards, names, opts, trees)
     try:
         with rt.TempDir() as d:
@@ -558,7 +570,7 @@ def batch_afm(max_n, lo, hi, seed):
             continue      # an AFM document needs at least one relationship line
         allc = c06.fragment_cards(shape)
         for cards in (allc if len(allc) <= 8 else rnd.sample(allc, 8)):
-            for opts in [dict(), {'wide': 1}, {'paren_top': 1}, {'single_as_group': 1}]:
+            for opts in [dict(), {'wide': 1}, {'paren_top': 1}, {'single_as_group': 1}, {'block': 1 + rnd.randrange(6)}, {'block': 1 + rnd.randrange(6), 'paren_top': 1}]:
                 args = [shape, cards, opts, rnd.randrange(len(AFM_CTCS))]
                 res['instances'] += 1
                 res['native_runs'] += 1
